@@ -23,21 +23,24 @@ theorem fin_ok : okFin P = true := by decide
 theorem sets_ok : okSets I = true := by decide
 
 /-- **Never dropped, never reported twice.** After any sequence of events, each id is tracked at most once, and
-the number of times it was accepted equals the number of times it is in flight plus the number of times it
-was reported back to the queue (acknowledged as finished or produced as a new URL). -/
+the number of times it was accepted equals the number of times it is in flight, plus the number of times it
+was reported back to the queue (acknowledged as finished or produced as a new URL), plus the number of times
+a frozen reactor refused it as feedback (it then stays in the reactor's state table, which the source hands
+back to the queue when it stops — not finished, not lost). -/
 theorem c01_conservation (evs : List Ev) (he : ∀ e ∈ evs, Shaped I e) (x : String) :
     let s := run P I {} evs
-    (ids s).count x ≤ 1 ∧ s.accepted.count x = (ids s).count x + reported s x := by
+    (ids s).count x ≤ 1 ∧ s.accepted.count x = (ids s).count x + reported s x + handedBack s x := by
   have h := inv_run P I fin_ok sets_ok evs {} (inv_init I) he
   exact ⟨List.nodup_iff_count.1 h.nodup x, h.conserve x⟩
 
-/-- **Exactly once.** When nothing is in flight any more, every seed that was accepted once has been reported
-back exactly once. -/
+/-- **Exactly once.** When nothing is in flight any more (and no stop intervened), every seed that was accepted
+once has been reported back exactly once. -/
 theorem c01_exactly_once (evs : List Ev) (he : ∀ e ∈ evs, Shaped I e) (x : String)
-    (hdrained : (run P I {} evs).items = []) (hacc : (run P I {} evs).accepted.count x = 1) :
+    (hdrained : (run P I {} evs).items = []) (hacc : (run P I {} evs).accepted.count x = 1)
+    (hnostop : (run P I {} evs).parked = []) :
     reported (run P I {} evs) x = 1 := by
   have h := (inv_run P I fin_ok sets_ok evs {} (inv_init I) he).conserve x
-  simp only [ids, hdrained, List.map_nil, List.count_nil, Nat.zero_add] at h
+  simp only [ids, hdrained, List.map_nil, List.count_nil, Nat.zero_add, handedBack, hnostop] at h
   omega
 
 /-- **Only after the whole tree is done.** Whenever a seed is acknowledged as finished, no node of its tree
@@ -56,6 +59,9 @@ example :
     let evs : List Ev := [.accept "s" t0, .advance "s" t0, .advance "s" t0, .advance "s" t0, .advance "s" t1, .finish "s",
                           .advance "s" t1, .advance "s" t1, .advance "s" t1, .advance "s" t2, .finish "s", .finish "s"]
     let s := run P I {} evs
-    (s.items.length, s.acks.map Prod.fst, s.passes, s.accepted) = (0, ["s"], ["s"], ["s"]) := by decide
+    (s.items.length, s.acks.map Prod.fst, s.passes, s.accepted) = (0, ["s"], ["s"], ["s"]) ∧
+    -- … and with a stop in between: the unfinished seed is neither acknowledged nor dropped
+    (let s' := run P I {} [.accept "s" t0, .advance "s" t0, .advance "s" t0, .advance "s" t0, .advance "s" t1, .freeze, .finish "s"]
+     (s'.acks.length, s'.parked) = (0, ["s"])) := by decide
 
 end Zeno.Props.C01
